@@ -173,12 +173,13 @@ var timingReleases = map[string][]string{
 	"backlog":    {"one-more-open"},
 	"mass":       {"local-mux-close", "peer-mux-close", "carrier"},
 	"expiry":     {"write-after-expiry"},
+	"bufwrite":   {"deadline-preset", "deadline-future", "deadline-past", "deadline-both", "local-close", "local-close-write", "peer-close", "local-mux-close", "peer-mux-close", "carrier", "carrier-resumes"},
 	"redeadline": {"clear-write", "clear-both", "future-write", "future-both"},
 }
 
 func genTiming(rt *rapid.T) *TimingCase {
 	c := &TimingCase{Env: genEnv(rt, timingWindows, 10)}
-	c.Kind = rapid.SampledFrom([]string{"read", "read", "write", "write", "open", "accept", "stall", "stall", "backlog", "backlog", "mass", "expiry", "redeadline", "redeadline"}).Draw(rt, "kind")
+	c.Kind = rapid.SampledFrom([]string{"read", "read", "write", "write", "open", "accept", "stall", "stall", "backlog", "backlog", "mass", "expiry", "redeadline", "redeadline", "bufwrite", "bufwrite"}).Draw(rt, "kind")
 	c.Release = rapid.SampledFrom(timingReleases[c.Kind]).Draw(rt, "release")
 	c.Side = rapid.IntRange(0, 1).Draw(rt, "side")
 	c.Opener = rapid.IntRange(0, 1).Draw(rt, "opener")
@@ -704,7 +705,7 @@ func TestTiming(t *testing.T) {
 	}
 	rec := ev.New(t, "C25", "blocked-calls",
 		"rapid: scenarios over two real multiplexers under random configurations: a Read / Write / OpenStream / AcceptStream observed pending for 10-30 ms and then released by a deadline (preset, set while blocked, past), Close / CloseWrite of either end, Close of either multiplexer, a carrier failure, peer data / reads / accept / open; "+
-			"k stalled streams (writers blocked on a full window) beside which a fresh stream must transfer up to 1 MiB; accept backlog filled (some opens cancelled) and one more open that must be rejected; many blocked calls released at once; a Write that expired while waiting for a write buffer followed by a Write that must succeed. "+
+			"k stalled streams (writers blocked on a full window) beside which a fresh stream must transfer up to 1 MiB; accept backlog filled (some opens cancelled) and one more open that must be rejected; many blocked calls released at once; a Write parked waiting for a write buffer behind a stalled carrier (send window open) released by the same events; a Write that expired while waiting for a write buffer followed by a Write that must succeed. "+
 			"oracle: every call returns within 10 s of its releasing event with the documented error; a failing schedule is re-executed twice and only reported if it fails every time; "+
 			"non-trivial: the call was observed still pending after the watch period, before the release")
 	// Deterministic sweep first: every (scenario, release, blocking side,
@@ -712,8 +713,8 @@ func TestTiming(t *testing.T) {
 	// combination depends on the luck of the draw.
 	sweep := ev.New(t, "C25", "blocked-calls-sweep",
 		"every (scenario kind, releasing event, blocking side, opening side) combination under two fixed configurations (window 4096 / 5 buffers / backlog 3, and window 100 / 1 buffer / backlog 1, 7-byte carrier buffering, fragmented reads); oracle and non-trivial rule as in blocked-calls")
-	sweep.SetExhaustive("scenario kinds x releasing events (44 pairs) x blocking side x opening side x 2 configurations")
-	kinds := []string{"read", "write", "open", "accept", "stall", "backlog", "mass", "expiry", "redeadline"}
+	sweep.SetExhaustive("scenario kinds x releasing events (55 pairs) x blocking side x opening side x 2 configurations")
+	kinds := []string{"read", "write", "open", "accept", "stall", "backlog", "mass", "expiry", "redeadline", "bufwrite"}
 	idx := -1
 	for _, kind := range kinds {
 		for _, rel := range timingReleases[kind] {
